@@ -186,6 +186,25 @@ def stage_mc_neg(run, st):
     log('[mc-neg %s] counterexample for %s found as expected' % (st['name'], st['expect']))
 
 
+def stage_repotests(run, st):
+    """The repository's own test suite as a trace source (CCF style): built with -tags verif, every Add/Remove/Clean/Handler call the
+    tests make is recorded through the call-trace hooks and validated by Trace_Tree.tla."""
+    wd = run.sub('repotests')
+    trace = os.path.join(wd, 'trace-repo.ndjson')
+    env = dict(GOENV, VERIF_TRACE=trace)
+    p = subprocess.run(['go', 'test', '-tags', 'verif', '-vet=off', '-count=1', '-p', '1', './...'], cwd=REPO, env=env, capture_output=True, text=True, timeout=900)
+    if not os.path.exists(trace) or os.path.getsize(trace) == 0:
+        raise Infra('the repository tests produced no call trace (do they still build with -tags verif?):\n' + (p.stdout + p.stderr)[-1500:])
+    props = st.get('props') or [run.prop]
+    mism, n = validate_shard(run, wd, 'Trace_Tree', trace, props)
+    run.events += n
+    run.validated_traces += 1
+    for m in mism:
+        run.mismatches.append({'cases': None, 'trace': trace, 'm': m, 'trace_module': 'Trace_Tree', 'props': props, 'repotests': True})
+    collect_samples(run, trace)
+    log('[repotests] %d recorded calls of the repository\'s own tests validated, %d mismatches so far' % (n, len(run.mismatches)))
+
+
 def extract_cases(out, path, limit=None, sample=None, seed=0):
     seen = set()
     pool = None
@@ -486,6 +505,13 @@ def cases_before(cases, cid):
 
 def replay_file(run, cand, outdir):
     m = cand['m']
+    if cand.get('repotests'):
+        doc = cand.get('replay_doc') or {'property': m['id'], 'mismatch': m}
+        d = os.path.join(outdir, m['id'])
+        os.makedirs(d, exist_ok=True)
+        p = os.path.join(d, 'repotests-%s.json' % hashlib.sha1(json.dumps(m, sort_keys=True).encode()).hexdigest()[:12])
+        json.dump(doc, open(p, 'w'), indent=1)
+        return p
     pool, case = case_of_line(cand['trace'], cand['cases'], m['line'])
     if case is None:
         return None
@@ -600,6 +626,8 @@ def run_check(prop, tier, seed):
                 stage_mc(run, st)
             elif kind == 'mc_neg':
                 stage_mc_neg(run, st)
+            elif kind == 'repotests':
+                stage_repotests(run, st)
             elif kind == 'gen':
                 g = stage_gen(run, st)
                 exec_and_validate(run, g, st)
@@ -641,6 +669,21 @@ def run_check(prop, tier, seed):
         def confirm(item):
             key, c = item
             f = known_match(known, c['m'])
+            if c.get('repotests'):
+                r2 = Run(run.prop, run.tier, run.seed)
+                try:
+                    stage_repotests(r2, {'props': c['props']})
+                    again = any(mismatch_key(x['m']) == key for x in r2.mismatches)
+                finally:
+                    keep = os.path.join(run.sub('cand'), 'repotests-trace.ndjson')
+                    try:
+                        shutil.copy(os.path.join(r2.dir, 'repotests', 'trace-repo.ndjson'), keep)
+                    except Exception:
+                        pass
+                    r2.cleanup()
+                c['replay_doc'] = {'property': c['m']['id'], 'trace_module': 'Trace_Tree', 'mismatch': c['m'], 'event': event_at(c['trace'], c['m']['line']),
+                                   'how': 'run the repository tests with -tags verif and VERIF_TRACE=<file>, validate <file> with spec/Trace_Tree.tla'}
+                return ('confirmed' if again else 'unrepro', c, f)
             rp = replay_file(run, c, run.sub('cand'))
             if rp is None:
                 return ('unrepro', c, f)
